@@ -40,16 +40,24 @@ def run(cfg, chunks, ctx=None, reader=None, states: set | None = None):
     """Feed all chunks; returns (list of observed frames, exception or None)."""
     reader = reader or new_reader(cfg)
     out = []
+    kept = []
+    err = None
     for ch in chunks:
         try:
             frames = reader.read(ch)
         except Exception as ex:  # recorded, never swallowed silently: C14 decides on it
-            return out, ex
+            err = ex
+            break
         for f in frames:
             out.append(observe(f))
+            kept.append(f)
         if states is not None:
             states.add(boundary_state(reader))
-    return out, None
+    # a returned frame must not change when the reader goes on reading: observe every frame again at the end
+    for o, f in zip(out, kept):
+        again = observe(f)
+        o["changed_later"] = any(again[k] != o[k] for k in ("bytes", "valid", "payload"))
+    return out, err
 
 
 def triple(obs: dict) -> tuple:
